@@ -1,5 +1,7 @@
 import GroupbyVerif.Lemmas.RowSel
 import GroupbyVerif.Generated.Constants
+import GroupbyVerif.LoopBridge.FindNth
+import GroupbyVerif.LoopBridge.FirstLast
 
 /-!
 # C15 — head/tail/nth select exactly the requested rows of each group
@@ -89,5 +91,49 @@ example : (findNth 3 [0,0,0,0,0,0,0,0,0,0] 1 0).out = 9 ∧ (findNth 3 [0,0,0,0,
 /-- non-vacuity: interleaved groups, a null key, negative n -/
 example : (findNth 64 [1, -1, 0, 1, 0, 1] (-1) 1).out = 5 ∧ findFirstOrLastN 64 [1, -1, 0, 1, 0, 1] 2 false 1 = [3, 5]
     ∧ findFirstOrLastN 64 [1, -1, 0, 1, 0, 1] 2 true 0 = [2, 4] := by decide
+
+/-! ### the loops of the current source, end to end
+
+`Generated.Loops.find_nth` / `find_first_or_last_n` are regenerated from `groupby_lib/groupby/numba.py` on every run;
+`LoopBridge/FindNth.lean` / `FirstLast.lean` prove them equal to `findNth` / `findFirstOrLastN`.  A row that the mask
+drops behaves like a null-key row (`effCodes`). -/
+
+/-- **the translated `_find_nth` returns the n-th row of every group** (from the start for `n ≥ 0`, from the end for
+`n < 0`, `-1` if the group is too short), for groups of any size below `2^63` rows, and never trips its `assert` -/
+theorem source_nth_eq_spec (k : Kind) (codes : List Int) (msk : List Bool) (masked : Bool) (n : Int) (ng ml : Int)
+    (hlen : (codes.length : Int) < 2 ^ 63) (g : Int) (hg : 0 ≤ g) :
+    let r := Generated.Loops.find_nth k codes.length (arrOf codes 0) ng n masked ml (arrOf msk true)
+    r.1 g = specNth (effCodes masked codes msk) n g ∧ r.2 = false := by
+  apply LoopBridge.find_nth_eq_spec k codes msk masked n ng ml hlen _ g hg
+  intro g' hg'
+  exact nth_eq_spec 64 (by omega) _ n g' hg' (by simpa using hlen)
+
+/-- **the translated `_find_first_or_last_n(forward=True)` returns the first `n` rows of every group** -/
+theorem source_head_eq_spec (k : Kind) (codes : List Int) (msk : List Bool) (masked : Bool) (n : Nat)
+    (hn : (n : Int) < 2 ^ 63) (ng ml : Int) (g : Int) (hg : 0 ≤ g) :
+    let r := Generated.Loops.find_first_or_last_n k codes.length (arrOf codes 0) ng n masked ml (arrOf msk true) true
+    LoopBridge.rowOf r.1 g n = specHead (effCodes masked codes msk) n g ∧ r.2 = false := by
+  intro r
+  have h := LoopBridge.find_first_or_last_n_eq k codes msk masked n hn ng ml true g hg
+  exact ⟨h.1.trans (head_eq_spec 64 (by omega) _ n g hg (by simpa using hn)), h.2⟩
+
+/-- **the translated `_find_first_or_last_n(forward=False)` returns the last `n` rows of every group**, ascending -/
+theorem source_tail_eq_spec (k : Kind) (codes : List Int) (msk : List Bool) (masked : Bool) (n : Nat)
+    (hn : (n : Int) < 2 ^ 63) (ng ml : Int) (g : Int) (hg : 0 ≤ g) :
+    let r := Generated.Loops.find_first_or_last_n k codes.length (arrOf codes 0) ng n masked ml (arrOf msk true) false
+    LoopBridge.rowOf r.1 g n = specTail (effCodes masked codes msk) n g ∧ r.2 = false := by
+  intro r
+  have h := LoopBridge.find_first_or_last_n_eq k codes msk masked n hn ng ml false g hg
+  exact ⟨h.1.trans (tail_eq_spec 64 (by omega) _ n g hg (by simpa using hn)), h.2⟩
+
+/-- non-vacuity: nth(-1) and head(2) over two interleaved groups, a null key and a masked row -/
+example :
+    let r := Generated.Loops.find_nth .f 6 (arrOf [0, 1, -1, 0, 1, 0] 0) 2 (-1) true 6
+      (arrOf [true, true, true, true, true, false] true)
+    (r.1 0, r.1 1, r.2) = (3, 4, false) := by decide
+
+example :
+    let r := Generated.Loops.find_first_or_last_n .f 6 (arrOf [0, 1, -1, 0, 1, 0] 0) 2 2 false 0 (arrOf [] true) false
+    (LoopBridge.rowOf r.1 0 2, LoopBridge.rowOf r.1 1 2) = ([3, 5], [1, 4]) := by decide
 
 end GV.C15
